@@ -20,10 +20,17 @@ def main():
         i = argv.index('--jobs'); jobs = int(argv[i + 1]); del argv[i:i + 2]
     args = [a for a in argv if not a.startswith('--')]
     allp = '--all-props' in argv
+    # --benign: run the behaviour-preserving changes of /verif/benign/* against every property whose anchor files they touch;
+    # any rc=1 there is a FALSE ALARM of the machinery
+    corpus = 'benign' if '--benign' in argv else 'seeded'
+    anchors = {}
+    for l in open(os.path.join(V, 'properties.jsonl')):
+        d = json.loads(l)
+        anchors[d['id']] = set(d['anchors']['files'])
     props = json.load(open(os.path.join(V, 'contracts', 'properties.json')))
     todo = []
-    for d in sorted(os.listdir(os.path.join(V, 'seeded'))):
-        pd = os.path.join(V, 'seeded', d, 'patch.diff')
+    for d in sorted(os.listdir(os.path.join(V, corpus))):
+        pd = os.path.join(V, corpus, d, 'patch.diff')
         if os.path.exists(pd) and (not args or d in args):
             todo.append(d)
     slots = list(range(jobs))
@@ -41,9 +48,9 @@ def main():
             k = slots.pop()
         try:
             scr, snap = '/tmp/wt/scratch%d' % k, '/tmp/verif_snap%d' % k
-            pd = os.path.join(V, 'seeded', d, 'patch.diff')
+            pd = os.path.join(V, corpus, d, 'patch.diff')
             target = d.split('_')[0]
-            meta = os.path.join(V, 'seeded', d, 'meta.json')
+            meta = os.path.join(V, corpus, d, 'meta.json')
             if os.path.exists(meta):
                 target = json.load(open(meta)).get('property', target)
             sh('git -C %s checkout -q -- . && git -C %s clean -fdq' % (scr, scr))
@@ -52,10 +59,13 @@ def main():
                 line = '%-8s %-4s PATCH DOES NOT APPLY' % (d, target)
             else:
                 plist = sorted(props) if allp else ([target] if target in props else [])
+                if corpus == 'benign':
+                    touched = set(l[6:].strip() for l in open(pd) if l.startswith('+++ b/'))
+                    plist = sorted(p for p in props if anchors.get(p, set()) & touched)
                 res = []
                 for p in plist:
                     c = sh('python3 engine/check.py %s' % p, cwd=snap, env=dict(os.environ, VERIF_REPO=scr, VERIF_KANI_TARGET='/tmp/verif_kani_target_w%d' % k))
-                    first = [l for l in c.stdout.splitlines() if 'failed obligation' in l][:1]
+                    first = [l for l in c.stdout.splitlines() if l.lstrip().startswith('failed obligation ')][:1]
                     und = [l for l in c.stdout.splitlines() if l.startswith('UNDECIDED')][:1]
                     res.append('%s:rc=%d%s' % (p, c.returncode, (' ' + first[0].split('failed obligation ')[1][:70]) if first else
                                                ((' ' + und[0][:110]) if und and c.returncode == 2 else '')))
